@@ -980,11 +980,13 @@ class ASTStubGenerator(BaseStubGenerator, mypy.traverser.TraverserVisitor):
                 and self.is_alias_expression(o.rvalue)
                 and not self.is_private_name(lvalue.name)
             ):
-                is_explicit_type_alias = (
-                    o.unanalyzed_type and getattr(o.type, "name", None) == "TypeAlias"
+                alias_ann = getattr(o.unanalyzed_type, "name", None)
+                is_explicit_type_alias = bool(alias_ann) and self.resolve_name(alias_ann) in (
+                    "typing.TypeAlias",
+                    "typing_extensions.TypeAlias",
                 )
                 if is_explicit_type_alias:
-                    self.process_typealias(lvalue, o.rvalue, is_explicit_type_alias=True)
+                    self.process_typealias(lvalue, o.rvalue, explicit_annotation=alias_ann)
                     continue
 
                 if not o.unanalyzed_type:
@@ -1213,12 +1215,12 @@ class ASTStubGenerator(BaseStubGenerator, mypy.traverser.TraverserVisitor):
             return False
 
     def process_typealias(
-        self, lvalue: NameExpr, rvalue: Expression, is_explicit_type_alias: bool = False
+        self, lvalue: NameExpr, rvalue: Expression, explicit_annotation: str | None = None
     ) -> None:
         p = AliasPrinter(self)
-        if is_explicit_type_alias:
-            self.import_tracker.require_name("TypeAlias")
-            self.add(f"{self._indent}{lvalue.name}: TypeAlias = {rvalue.accept(p)}\n")
+        if explicit_annotation:
+            self.import_tracker.require_name(explicit_annotation)
+            self.add(f"{self._indent}{lvalue.name}: {explicit_annotation} = {rvalue.accept(p)}\n")
         else:
             self.add(f"{self._indent}{lvalue.name} = {rvalue.accept(p)}\n")
         self.record_name(lvalue.name)
